@@ -10,20 +10,20 @@ TECH_D = "static analysis: repository-specific structural rules over the type-ch
 
 CLAIMS = {
  "C01": ("Decides the non-arithmetic part of well-formedness: (C01.a) the marker/mode protocol of the buffer, proved inductively over every exported Buffer method and every entry configuration; (C01.b) only redactable payloads are written in raw mode; (C01.d) every printer function restores mode/override on every normal and panicking exit; (C05.b) literal text is written in an escaped safe mode. Does not decide the byte arithmetic of the escape scanner.", "§5 C01", TECH_AB),
- "C16": ("All entry points follow one protocol around doPrint*/doPrintf with the caller's arguments unchanged (C16.a), F* variants deliver one Write of the taken bytes and return the writer's results (C16.b), the builder route sets raw mode then prints into its own buffer (C16.c), the nested route borrows and hands back the buffer and is cleared before free (C16.d). Equality up to merging of adjacent envelopes is not decided.", "§5 C16", TECH_D),
- "C17": ("Dispatch order in the method dispatcher by CFG edge-cut reachability (C17.a), arguments handed to the hook and to SafeFormat/Format incl. the %w rewrite (C17.b), dispatcher reached on all three detection routes (C17.c), bypass under Unsafe in every reachable configuration (C06.e), who writes/reads the hook variable (C17.e), containment of hook panics (C11.c, C11.g). What an installed hook renders is user code.", "§5 C17", TECH_D + " + Engine A events"),
+ "C16": ("All entry points follow one protocol around doPrint*/doPrintf with the caller's arguments unchanged (C16.a), F* variants deliver one Write of the taken bytes and return the writer's results (C16.b), the builder route sets raw mode then prints into its own buffer (C16.c), the nested route borrows and hands back the buffer and is cleared before free (C16.d), the argument-list printers are never entered under the safe override of an enclosing operand (C16.e). Equality up to merging of adjacent envelopes is not decided.", "§5 C16", TECH_D),
+ "C17": ("Dispatch order in the method dispatcher by CFG edge-cut reachability (C17.a), arguments handed to the hook and to SafeFormat/Format incl. the %w rewrite (C17.b), dispatcher reached on all three detection routes (C17.c), bypass under Unsafe in every reachable configuration (C06.e), who writes/reads the hook variable (C17.e), registration stores the user's function and is exposed by the root package (C17.f), containment of hook panics (C11.c, C11.g). What an installed hook renders is user code.", "§5 C17", TECH_D + " + Engine A events"),
  "C02": ("Static non-interference for explicit flows: (C02.a) no operand-derived value reaches a buffer write outside unsafe mode unless a safe override is in force, for every (kind, verb) branch and every reachable configuration. Implicit flows and the numeric renderings are not decided.", "§5 C02", TECH_AB),
  "C03": ("(C03.a) line splitting is requested exactly when unsafe data is sealed, in every reachable buffer configuration; with C01.a/I2 every envelope is escaped-and-split before it is closed. The splitter's byte arithmetic is not decided.", "§5 C03", TECH_A),
- "C04": ("(C04.a) print.go/format.go are exactly import base + recorded patch (fmtsort/sort.go verbatim), and every function of the import base equals the standard library's fmt function of the same name (or differs from it exactly by the recorded upstream evolution); (C04.a3) after erasing the instrumentation forms every function of the fork is identical to the import base's, i.e. the recorded patch classifies output but does not change what fmt computes; (C04.b) writePadding, which the fork rewrote, emits exactly n pad bytes. A sufficient-side cross-check of the fork's own mechanism for fidelity; it says nothing about Go versions other than the two reference toolchains.", "§5 C04", "static analysis: fork conformance — reverse application of the recorded patch, function-by-function comparison of the normalised import base with the reference fmt sources (cross-checking siblings), structural SSA rule for writePadding"),
- "C05": ("Both directions of the classification at the granularity of write events: nothing tainted outside (C02.a), no public text inside envelopes (C05.b), full rendering of safe values visible (C05.c), state restored after every leaf at every depth on every exit (C01.d).", "§5 C05", TECH_AB),
- "C06": ("The override discipline over every re-entrant path: (C06.a) every write under an effective unsafe context (own or borrowed through nested printers) is enveloped; (C05.c) safe override keeps writes visible; (C06.c) outermost wins in the four start* helpers; (C06.e) redact-specific dispatch is bypassed under Unsafe().", "§5 C06", TECH_AB),
+ "C04": ("(C04.a) the import base reconstructed by undoing the recorded patch (fmtsort/sort.go verbatim) equals, function by function, the standard library's fmt (or differs from it exactly by the recorded upstream evolution); (C04.a3) after erasing the instrumentation forms every function of the fork is identical (i) to the import base's and (ii) — without using the recorded patch, so a stale .diff is noted and not reported — to the reference fmt's up to the recorded evolution, i.e. the fork classifies output but does not change what fmt computes; (C04.b) writePadding, which the fork rewrote, emits exactly n pad bytes. A sufficient-side cross-check of the fork's own mechanism for fidelity; it says nothing about Go versions other than the two reference toolchains.", "§5 C04", "static analysis: fork conformance — reverse application of the recorded patch, function-by-function comparison of the normalised import base with the reference fmt sources (cross-checking siblings), structural SSA rule for writePadding"),
+ "C05": ("Both directions of the classification at the granularity of write events: nothing tainted outside (C02.a), no public text inside envelopes (C05.b), full rendering of safe values visible (C05.c), state restored after every leaf at every depth on every exit (C01.d); declassifiers are exactly the sanctioned tests (C02.b) and a recognised wrapper is acted upon (C06.g); the registry is consulted with the dynamic type on all routes (C05.e, C05.g) and registration through the public API is effective (C17.f).", "§5 C05", TECH_AB),
+ "C06": ("The override discipline over every re-entrant path: (C06.a) every write under an effective unsafe context (own or borrowed through nested printers) is enveloped; (C05.c) safe override keeps writes visible; (C06.c) outermost wins in the four start* helpers; (C06.e) redact-specific dispatch is bypassed under Unsafe(); (C06.g) where a wrapper type is recognised the override of its side is installed before anything is printed, restored by a deferred call, the content (field 0, one level deeper) is printed and the operand reported as handled.", "§5 C06", TECH_AB),
  "C07": ("Decides the two marker patterns as regular languages (DFA construction from regexp/syntax, equivalence with start·(Σ∖{start,end})*·end and {start,end}, prefix-freeness), the replacement constants that make Redact/StripMarkers/EscapeMarkers exact and idempotent, and agreement of the string and []byte variants. Trusts Go's regexp for leftmost-first matching and ReplaceAll.", "§5 C07", "static analysis: constant folding of the pattern expressions + regular-language decision procedure (regexp/syntax program -> DFA, product-automaton equivalence)"),
  "C08": ("(C08.a) redactable operands are inlined raw by a direct buffer write in every configuration outside Unsafe(), escaped inside; (C08.b) a redactable operand flows nowhere else. The induction over re-print histories is an argument, not an analysis result.", "§5 C08", TECH_AB),
- "C09": ("Per SafeWriter method and per implementation: side from the parameter type, exactly one buffer write on the single path, payload is the parameter, mode of its side in every reachable configuration, verb/signedness agreement of the numeric emitters, fmt.State writes are unsafe; (C09.g) buffer growth keeps the old content, extends by exactly the request and the write methods store at the returned index; with C01.a/C01.b for the buffer below and C16.c for the builder's print route. The two textual equalities for arbitrary payloads need the escaper's arithmetic and are not decided.", "§5 C09", TECH_AB + " + structural SSA rules"),
- "C10": ("(C07) the regex half exactly; (C10.scan) structural necessary conditions of the byte scanner: start offset, window length = marker length, tight look-ahead guard, skip lengths, plain iterations advance by one, dangling-tail rule on every path; (C10.b) EscapeBytes shape; (C10.f) copy-on-write, path-sensitively; (C10.g) plain writes never escape or validate; (C03.c) splitter shape. Byte-exactness for all contents is not decided.", "§5 C10", TECH_D + " + path-sensitive abstract interpretation for copy-on-write"),
+ "C09": ("Per SafeWriter method and per implementation: side from the parameter type, exactly one buffer write on the single path, payload is the parameter, mode of its side in every reachable configuration, verb/signedness agreement of the numeric emitters, fmt.State writes are unsafe; (C09.g) buffer growth keeps the old content, extends by exactly the request and the write methods store at the returned index; (C09.h) selecting the mode already in force is the identity, so escaping stays deferred across the pieces of one payload; the contract is checked on every path of a method, helpers of the same receiver read in place; with C01.a/C01.b for the buffer below and C16.c for the builder's print route. The two textual equalities for arbitrary payloads need the escaper's arithmetic and are not decided.", "§5 C09", TECH_AB + " + structural SSA rules"),
+ "C10": ("(C07) the regex half exactly; (C10.scan) structural necessary conditions of the byte scanner: start offset, window length = marker length, tight look-ahead guard, skip lengths, plain iterations advance by one, dangling-tail rule on every path; (C10.b) EscapeBytes shape; (C10.f) copy-on-write and a single allocation of the output per path, path-sensitively; (C09.h) laziness across a no-op mode change; (C10.g) plain writes never escape or validate; (C03.c) splitter shape. Byte-exactness for all contents is not decided.", "§5 C10", TECH_D + " + path-sensitive abstract interpretation for copy-on-write"),
  "C11": ("Containment of user-method panics: (C11.c) no uncontained panicking exit from the dispatcher, re-raise only for nested panics, the panic report is written in the caller's classification; (C01.d) restorers run on panic paths.", "§5 C11", TECH_A),
- "C12": ("Pool hygiene (C12.b): every printer handed to sync.Pool.Put has no override, no captured error, a reset buffer; newPrinter re-establishes the per-call flags. No schedule is explored.", "§5 C12", TECH_A),
- "C14": ("MakeFormat is interpreted abstractly for all 2^7 fmt.State configurations x 4 verb classes and must return exactly the directive; pp.Flag for all 2^7 flag states x 6 characters; the wrappers and ReproducePrintf are checked structurally. The concrete round trip through fmt's parser is not executed.", "§5 C14", "static analysis: exhaustive abstract interpretation of MakeFormat/pp.Flag over their finite configuration space (go/ssa) + structural SSA rules"),
+ "C12": ("Pool hygiene (C12.b): every printer handed to sync.Pool.Put has no override, no captured error, a reset buffer; newPrinter re-establishes the per-call flags; (C12.d) a borrowed buffer is handed back on every exit; (C12.f) the width and precision left in the pooled formatter by an earlier call are never read: every load is under its presence flag (forward must-analysis); (C12.a/e) no shared mutable state outside the pool and the registries. No schedule is explored.", "§5 C12", TECH_A),
+ "C14": ("MakeFormat is interpreted abstractly for all 2^7 fmt.State configurations x 4 verb classes and must return exactly the directive; pp.Flag for all 2^7 flag states x 6 characters; the wrappers and ReproducePrintf are checked structurally; (C14.p) the directive parser whose state MakeFormat reads is fmt's (Engine C restricted to the parser). The concrete round trip through fmt's parser is not executed.", "§5 C14", "static analysis: exhaustive abstract interpretation of MakeFormat/pp.Flag over their finite configuration space (go/ssa) + structural SSA rules"),
  "C15": ("(C15.b/c) every function to which the format loop hands a verb either captures or rejects a %w and leaves the pair alone for other verbs, for every state of (wrapErrs, wrappedErr) and every route of the operand; (C15.d) HelperForErrorf arms, formats, reads and frees in that order; (C12.b) pool reuse clears the slot. Text equality with fmt.Errorf is C04's business.", "§5 C15", TECH_A),
  "C13": ("(C13.a) accessors never write the receiver, (C13.c) Reset/Take* end in the zero configuration, for every entry configuration of the buffer state machine.", "§5 C13", TECH_A),
 }
